@@ -18,7 +18,7 @@ ENGINE = "E-FAULT"
 TECHNIQUE = "complete product of save_output subsets x environment x estimator x gate outcome x aggregate list, each run executed on the real client against a recording object store and a scratch working directory; expected write sequence derived from the statement"
 RULE = (
     "save_output in all 16 subsets of {results,data,config,conformalization} plus 'argument omitted' x APP_ENV in {local, dev} (real process "
-    "environment, one worker pool each) x estimator (3) x gate outcome {passes, fails, fails on a feed without rows} x aggregate list {default, with county}; after each passing "
+    "environment, one worker pool each) x estimator (3) x gate outcome {passes, fails, fails on a feed without rows, rejected for a repeated feed row} x aggregate list {default, with county}; after each passing "
     "bootstrap run also the national-summary call; the 17 save_output variants x environment with the configuration and / or the baseline data fetched from remote storage instead of handed in; the library's own command line entry point over the 16 subsets of --save_output x environment x two estimators; and every two-run history over save_output in {[], [conformalization], [results], [results, conformalization]}^2 x "
     "estimator pairs x {parameter argument omitted, one dictionary reused} in one process. Oracle: exact multiset of put_object keys, live-result keys first and present even when the gate "
     "fails, exact set of local files, every key matches ^<root>/<election id>/\\S+$ in the configured bucket. non-trivial = the run is expected to "
@@ -51,6 +51,11 @@ def cases(tier, seed):
         for so in subsets:
             for setup in ("np2", "bs1"):
                 out.append({"env": {"APP_ENV": env}, "save_output": so, "setup": setup, "gate": "empty", "agg": "pc_cf", "seed": seed})
+    # the feed repeats the row of one reporting unit: the run is rejected, after the live results have been saved
+    for env in ("local", "dev"):
+        for so in subsets:
+            for setup in ("np2", "ga2"):
+                out.append({"env": {"APP_ENV": env}, "save_output": so, "setup": setup, "gate": "duplicate", "agg": "pc_cf", "seed": seed})
     # the same options in other containers (the library's own CLI hands over a tuple)
     for env in ("local", "dev"):
         for so in (["results"], ["data", "config"], ["results", "conformalization"], []):
@@ -285,12 +290,18 @@ def _evaluate(case):
             V.append({"sig": f"C18:{kind}", "msg": f"env={env} save_output={case['save_output']} inputs_from_remote={case.get('source') or 'none'} {setup} gate={case['gate']} agg={case['agg']}: {msg}"})
 
     cfg = S.cfg_for(setup, case["agg"], "drop", 100)
-    n = 16 if case["gate"] == "passes" else 2
+    n = 16 if case["gate"] in ("passes", "duplicate") else 2
     units = E.background(case["seed"], "G", n, "AA2") + [E.make_probe(case["seed"], 0, "nonrep_partial", "pop0", weights="twoparty" if setup == "bs1" else "turnout")]
     baseline, feed = E.frames(units, cfg)
     if case["gate"] == "empty":
         feed = feed.iloc[0:0].copy()
         cov["runs_with_empty_feed"] += 1
+    if case["gate"] == "duplicate":
+        import pandas as pd
+
+        rep_id = [u["id"] for u in units if u["role"] == "bg"][0]
+        feed = pd.concat([feed, feed[feed.geographic_unit_fips == rep_id]], ignore_index=True)
+        cov["runs_with_duplicated_feed_row"] += 1
     mp, kwargs = E.call_kwargs(units, cfg)
     if case["save_output"] is None:
         kwargs.pop("save_output")
@@ -338,7 +349,7 @@ def _evaluate(case):
         fakes.S3_STORE.clear()
     log = list(fakes.S3_LOG)
     del fakes.S3_LOG[:]
-    expected_outcome = "completed" if case["gate"] == "passes" else "ModelNotEnoughSubunitsException"
+    expected_outcome = {"passes": "completed", "duplicate": "ModelClientException"}.get(case["gate"], "ModelNotEnoughSubunitsException")
     if outcome != expected_outcome:
         viol("unexpected-outcome", f"run ended with {outcome}, expected {expected_outcome}")
     # expected remote keys, from the statement
@@ -400,4 +411,4 @@ def _evaluate(case):
     return {"violations": V, "cov": dict(cov), "outcome": sha([norm, files, outcome])[:16], "nontrivial": bool(exp or exp_files)}
 
 
-REQUIRED_COUNTERS = {"expect_live_results": 50, "live_results_with_failing_gate": 20, "expect_conformalization": 10, "expect_local_files": 100, "expect_nothing": 20, "sequences": 100, "non_list_containers": 30, "runs_reading_inputs_from_remote_storage": 100, "command_line_runs": 50, "command_line_runs_expecting_nothing": 4, "runs_with_empty_feed": 30}
+REQUIRED_COUNTERS = {"expect_live_results": 50, "live_results_with_failing_gate": 20, "expect_conformalization": 10, "expect_local_files": 100, "expect_nothing": 20, "sequences": 100, "non_list_containers": 30, "runs_reading_inputs_from_remote_storage": 100, "command_line_runs": 50, "command_line_runs_expecting_nothing": 4, "runs_with_empty_feed": 30, "runs_with_duplicated_feed_row": 30}
